@@ -13,6 +13,7 @@ DECIDED = ("<Score as Ord>::cmp is extracted from MIR as a 5x5 decision table ov
            "reflexivity, antisymmetry, transitivity, totality, the stated preference order (Min < BlackMateIn(.) < Raw(.) < WhiteMateIn(.) < Max, quicker white "
            "mate greater, slower black mate greater, Raw by value), cmp==Equal iff structurally equal (PartialEq is the derived one), and "
            "partial_cmp == Some(cmp). The engine's users (is_better, update_cutoff, the alpha-beta cutoff test) resolve to these impls.")
+DECIDED = DECIDED + ' R5 `<`, `<=`, `>`, `>=` (and max/min/clamp) of Score are the provided methods, or overrides defined through cmp / partial_cmp that answer true exactly on the right orderings.'
 NOT_DECIDED = "nothing of the statement; trusted: rustc's MIR for the impl, primitive integer ordering, the table extractor"
 EXPLANATION = ("Decision-table extraction (K4): constants and copies are propagated through the loop-free body, splitting only on enum discriminants; "
                "the resulting table is compared with the specification order on an abstraction that is exact because payloads are only ever compared.")
@@ -146,6 +147,43 @@ def r3(ctx):
     ptab = cmp_table(ctx, f"<{SCORE} as core::cmp::PartialOrd>::partial_cmp", wrap_some=True)
     bad = [(f"{k}", f"partial_cmp{k} = {ptab.get(k)} but cmp = {tab[k]}") for k in tab if ptab.get(k) != tab[k]]
     ctx.bulk("partial_cmp", len(tab), bad, "partial_cmp disagrees with cmp", sample={"cells": len(tab)})
+
+
+@rule("C14.R5", "the comparison operators are the provided ones (or defined through cmp): `<`, `<=`, `>`, `>=`, max, min, clamp cannot disagree with cmp")
+def r5(ctx):
+    """partial_cmp == Some(cmp) settles `<` .. `>=` only while they are the provided methods; an override with its own table (a 'fast path')
+    can disagree on a corner although cmp, partial_cmp and == are all right."""
+    P = ctx.P
+    want = {"lt": {"Less"}, "le": {"Less", "Equal"}, "gt": {"Greater"}, "ge": {"Greater", "Equal"}}
+    n = 0
+    for tr, names in (("core::cmp::PartialOrd", ("lt", "le", "gt", "ge")), ("core::cmp::Ord", ("max", "min", "clamp"))):
+        for m_ in names:
+            k = f"<{SCORE} as {tr}>::{m_}"
+            if k not in P.fns:
+                continue
+            n += 1
+            ctx.used_body(k)
+            ok = False
+            if m_ in want:
+                cmpk, pk = f"<{SCORE} as core::cmp::Ord>::cmp", f"<{SCORE} as core::cmp::PartialOrd>::partial_cmp"
+                try:
+                    lv = T.Engine(P, opaque={cmpk, pk}).tabulate(k)
+                except T.NotTabulable:
+                    lv = []
+                # every path: decided by the variant cmp / partial_cmp returned, true exactly on the wanted orderings
+                seen = {}
+                ok = bool(lv)
+                for lf in lv:
+                    ds = [(t_, v) for t_, v in lf.cond if t_[0] == "discr"]
+                    others = [c for c in lf.cond if c[0][0] != "discr"]
+                    ords = [v for t_, v in ds if isinstance(v, str) and v in ("Less", "Equal", "Greater")]
+                    if others or len(ords) != 1 or not T.is_const(lf.ret):
+                        ok = False
+                        break
+                    seen[ords[0]] = bool(lf.ret[1])
+                ok = ok and all(seen.get(o, None) == (o in want[m_]) for o in ("Less", "Equal", "Greater"))
+            ctx.ob(f"Score::{m_} override", ok, f"{k} overrides the provided method and is not defined through cmp: it can disagree with the order", site=P.body(k).get("def_span"))
+    ctx.ob("comparison operators provided", True, "", sample={"overrides": n})
 
 
 @rule("C14.R4", "users of the order resolve to these impls (best-move update, cutoff update, cutoff test)")
